@@ -274,7 +274,12 @@ func (p *pool) evalAll(jobs [][]string) ([]*Outcome, bool) {
 				mu.Unlock()
 				var o Outcome
 				if p.cfg.Subprocess {
-					o = p.subs[w].eval(jobs[i])
+					o = p.subs[w].eval(jobs[i], 1)
+					if o.Died && strings.HasPrefix(o.DiedMsg, hangMsg) {
+						// a busy machine can stretch one run beyond the limit: a hang counts only if
+						// the same history hangs again on a fresh worker with three times the limit
+						o = p.subs[w].eval(jobs[i], 3)
+					}
 				} else {
 					o = p.cfg.Run(jobs[i])
 				}
@@ -321,7 +326,9 @@ func (s *subWorker) stop() {
 	}
 }
 
-func (s *subWorker) eval(h []string) Outcome {
+const hangMsg = "per-run limit exceeded (hang)"
+
+func (s *subWorker) eval(h []string, limitFactor int) Outcome {
 	if s.cmd == nil || (s.cfg.RecycleEvery > 0 && s.count >= s.cfg.RecycleEvery) {
 		s.stop()
 		s.start()
@@ -357,13 +364,13 @@ func (s *subWorker) eval(h []string) Outcome {
 			return Outcome{Died: true, DiedMsg: "bad worker reply: " + err.Error()}
 		}
 		return o
-	case <-time.After(s.cfg.PerRunLimit):
+	case <-time.After(time.Duration(limitFactor) * s.cfg.PerRunLimit):
 		// ask the Go runtime for a goroutine dump before killing the worker
 		s.cmd.Process.Signal(syscall.SIGQUIT)
 		time.Sleep(2 * time.Second)
 		msg := s.errb.head()
 		s.stop()
-		return Outcome{Died: true, DiedMsg: "per-run limit exceeded (hang)\n" + msg}
+		return Outcome{Died: true, DiedMsg: hangMsg + "\n" + msg}
 	}
 }
 
